@@ -65,40 +65,48 @@ def applyPayload (g : Gen) (sp : SpecGen) (out sout : List String) (parts : List
                then { sp with payload := sp.payload.append bs.toArray } else { sp with ok := false }
     (g', sp', out, sout)
 
-def runGen (toks : List String) : String × String :=
-  let step (acc : Gen × SpecGen × List String × List String) (tok : String) :
-      Gen × SpecGen × List String × List String :=
-    let (g, sp, out, sout) := acc
-    let parts := tok.splitOn ":"
-    match parts with
-    | ["r"] => (g.reset, { payload := #[], fixed := none, ok := true }, out, sout)
-    | ["c"] => (g, sp, out, sout)
-    | ["f"] => (g, sp, finAll g :: out, (if sp.ok then specFin sp else "* * *") :: sout)
-    | ["z", n] =>
+/-- one token of a generator history; `p` parks a copy of the generator (`clone`), `q` overwrites the
+    generator with the parked copy (`clone_from` into a used object) -/
+def runGenStep (acc : Gen × SpecGen × List String × List String × Gen × SpecGen) (tok : String) :
+    Gen × SpecGen × List String × List String × Gen × SpecGen :=
+  let (g, sp, out, sout, pg, psp) := acc
+  let parts := tok.splitOn ":"
+  let lift (r : Gen × SpecGen × List String × List String) :
+      Gen × SpecGen × List String × List String × Gen × SpecGen :=
+    (r.1, r.2.1, r.2.2.1, r.2.2.2, pg, psp)
+  match parts with
+  | ["r"] => (g.reset, { payload := #[], fixed := none, ok := true }, out, sout, pg, psp)
+  | ["c"] => (g, sp, out, sout, pg, psp)
+  | ["p"] => (g, sp, out, sout, g, sp)
+  | ["q"] => (pg, psp, out, sout, pg, psp)
+  | ["f"] => (g, sp, finAll g :: out, (if sp.ok then specFin sp else "* * *") :: sout, pg, psp)
+  | ["z", n] =>
+    match n.toNat? with
+    | some n =>
+      (Gen.withPrefixZeroes n,
+       if n ≤ specLimit then { payload := Array.replicate n 0, fixed := none, ok := true }
+       else { sp with ok := false }, out, sout, pg, psp)
+    | none => (g, sp, "bad-op" :: out, sout, pg, psp)
+  | [s, n] =>
+    if s == "s" || s == "S" then
       match n.toNat? with
       | some n =>
-        (Gen.withPrefixZeroes n,
-         if n ≤ specLimit then { payload := Array.replicate n 0, fixed := none, ok := true }
-         else { sp with ok := false }, out, sout)
-      | none => (g, sp, "bad-op" :: out, sout)
-    | [s, n] =>
-      if s == "s" || s == "S" then
-        match n.toNat? with
-        | some n =>
-          let so :=
-            if n > Gen.MAX_INPUT_SIZE then "s=ERR(FixedSizeTooLarge)"
-            else if sp.fixed.isSome && sp.fixed != some n then "s=ERR(FixedSizeMismatch)"
-            else "s=OK"
-          let sp' := if so == "s=OK" then { sp with fixed := some n } else sp
-          match g.setFixedInputSize n with
-          | .ok g' => (g', sp', "s=OK" :: out, so :: sout)
-          | .error e => (g, sp', s!"s=ERR({genErrStr e})" :: out, so :: sout)
-        | none => (g, sp, "bad-op" :: out, sout)
-      else
-        applyPayload g sp out sout parts
-    | [_, _, _] => applyPayload g sp out sout parts
-    | _ => (g, sp, "bad-op" :: out, sout)
-  let (_, _, out, sout) := toks.foldl step (Gen.new, {}, [], [])
+        let so :=
+          if n > Gen.MAX_INPUT_SIZE then "s=ERR(FixedSizeTooLarge)"
+          else if sp.fixed.isSome && sp.fixed != some n then "s=ERR(FixedSizeMismatch)"
+          else "s=OK"
+        let sp' := if so == "s=OK" then { sp with fixed := some n } else sp
+        match g.setFixedInputSize n with
+        | .ok g' => (g', sp', "s=OK" :: out, so :: sout, pg, psp)
+        | .error e => (g, sp', s!"s=ERR({genErrStr e})" :: out, so :: sout, pg, psp)
+      | none => (g, sp, "bad-op" :: out, sout, pg, psp)
+    else
+      lift (applyPayload g sp out sout parts)
+  | [_, _, _] => lift (applyPayload g sp out sout parts)
+  | _ => (g, sp, "bad-op" :: out, sout, pg, psp)
+
+def runGen (toks : List String) : String × String :=
+  let (_, _, out, sout, _, _) := toks.foldl runGenStep (Gen.new, {}, [], [], Gen.new, {})
   (" ".intercalate out.reverse, " ".intercalate sout.reverse)
 
 def runHb (args : List String) : String × String :=
